@@ -116,54 +116,67 @@ Theorem C13_gate_http_never_reserved : forall hmac cfg s hdr body text uid,
 Proof. exact gate_http_never_reserved. Qed.
 Print Assumptions C13_gate_http_never_reserved.
 
-(** REPLAY / SHOW / REMEMBER / comparison / FLUSH are executed identically for every caller. *)
+(** SHOW and FLUSH - the two commands still dispatched without the caller's identity - are
+    executed identically for every caller. *)
 Theorem C13_no_identity_commands : forall s who who' c k,
-  UncheckedReadCommand c || FlushNoRole c = true -> dispatch s who c k = dispatch s who' c k.
+  KnownClass c = true -> dispatch s who c k = dispatch s who' c k.
 Proof. exact no_identity_commands. Qed.
 Print Assumptions C13_no_identity_commands.
 
 (** The property as stated ([authorized_only]: whatever is executed for an identity a gate can
     produce satisfies the declarative policy) is still FALSE of the model, with one witness per
-    remaining known class (the class ReservedUserId is repaired and gone). *)
+    remaining known class: SHOW and FLUSH.  (ReservedUserId repaired by 139a8cf; REPLAY by d146031,
+    comparison by 20fee3f, REMEMBER by 8e7945c, sequence queries by 79dcefb: their witnesses are
+    refused now, [repaired_witnesses].) *)
 Theorem C13_authorized_only_refuted :
   ~ authorized_only /\
-  (exists s who c k s', reachable s /\ who <> Some auth_bypass_id /\ dispatch s who c k = (OExec, s') /\ UncheckedReadCommand c = true /\ ~ policy s who c) /\
-  (exists s who c k s', reachable s /\ who <> Some auth_bypass_id /\ dispatch s who c k = (OExec, s') /\ FlushNoRole c = true /\ ~ policy s who c) /\
-  (exists s who c k s', reachable s /\ who <> Some auth_bypass_id /\ dispatch s who c k = (OExec, s') /\ SequenceTailUnchecked c = true /\ ~ policy s who c).
+  (exists s who c k s', reachable s /\ who <> Some auth_bypass_id /\ dispatch s who c k = (OExec, s') /\ UncheckedShow c = true /\ ~ policy s who c) /\
+  (exists s who c k s', reachable s /\ who <> Some auth_bypass_id /\ dispatch s who c k = (OExec, s') /\ FlushNoRole c = true /\ ~ policy s who c).
 Proof. exact authorized_only_refuted. Qed.
 Print Assumptions C13_authorized_only_refuted.
 
-(** Outside the three remaining classes (which depend on the command kind only) the property
-    holds in every reachable state, for every identity other than the bypass-mode identity. *)
+(** Outside SHOW and FLUSH the property holds in every reachable state, for every identity
+    other than the bypass-mode identity: STORE, QUERY incl. sequence queries, REPLAY, REMEMBER,
+    comparison, DEFINE, user and permission management.  [cmd_wf]: the event types a whole-context
+    REPLAY finds in the context are defined event types. *)
 Theorem C13_outside_known : forall s who c k s',
-  reachable s -> who <> Some auth_bypass_id -> KnownClass c = false ->
+  reachable s -> who <> Some auth_bypass_id -> KnownClass c = false -> cmd_wf s c ->
   dispatch s who c k = (OExec, s') -> policy s who c.
 Proof. exact outside_known_reachable. Qed.
 Print Assumptions C13_outside_known.
 
+(** The four repaired command kinds spelled out: an executed REPLAY, REMEMBER, comparison or
+    (sequence) query was issued by a user who may read every event type it reads. *)
+Theorem C13_read_commands_checked : forall s u c k s',
+  reachable s -> u <> auth_bypass_id -> cmd_wf s c ->
+  match c with CReplay _ _ | CRemember _ _ | CCompare _ | CQuery _ => True | _ => False end ->
+  dispatch s (Some u) c k = (OExec, s') -> needs s u c.
+Proof. exact read_commands_reachable. Qed.
+Print Assumptions C13_read_commands_checked.
+
 (** End to end, for every user id whatsoever: an executed command came with a credential of the
-    executing user, that user is not a reserved id, and outside the known classes was entitled to
-    the command.  (Before 139a8cf this needed the exclusion "uid is not bypass".) *)
+    executing user, that user is not a reserved id, and outside SHOW / FLUSH was entitled to the
+    command. *)
 Theorem C13_served_outside_known : forall hmac parse cfg s conn line now tok key c uid conn' s',
   reachable s -> auth_on cfg ->
   serve_tcp hmac parse cfg s conn line now tok key = (SOut c uid OExec, conn', s') ->
   exists text, credential hmac s conn now line text uid /\ parse text = Some c /\
                is_reserved_id uid = false /\
-               (KnownClass c = false -> policy s (Some uid) c).
+               (KnownClass c = false -> cmd_wf s c -> policy s (Some uid) c).
 Proof. exact served_outside_known. Qed.
 Print Assumptions C13_served_outside_known.
 
 Theorem C13_served_unix_outside_known : forall hmac parse cfg s line key c uid s',
   reachable s -> auth_on cfg ->
   serve_unix hmac parse cfg s line key = (SOut c uid OExec, s') ->
-  is_reserved_id uid = false /\ (KnownClass c = false -> policy s (Some uid) c).
+  is_reserved_id uid = false /\ (KnownClass c = false -> cmd_wf s c -> policy s (Some uid) c).
 Proof. exact served_unix_outside_known. Qed.
 Print Assumptions C13_served_unix_outside_known.
 
 Theorem C13_served_http_outside_known : forall hmac parse cfg s hdr body key c uid s',
   reachable s -> auth_on cfg ->
   serve_http hmac parse cfg s hdr body key = (SOut c uid OExec, s') ->
-  is_reserved_id uid = false /\ (KnownClass c = false -> policy s (Some uid) c).
+  is_reserved_id uid = false /\ (KnownClass c = false -> cmd_wf s c -> policy s (Some uid) c).
 Proof. exact served_http_outside_known. Qed.
 Print Assumptions C13_served_http_outside_known.
 
